@@ -333,21 +333,26 @@ example : (firedOf (hooksFlagged exU exM) .sync exM (.user "X") true
 example : (processEvent (hooksFlagged exU exM) .sync exM exU (.user "X") exS).trace =
     ["#t:m,m.Q", "leave@X"] := by decide
 
-/-- which ones: scanning the selected list, stop at a pending error; skip a candidate whose source is
-    no longer active (tested only when several were selected); execute the others -/
+/-- which ones: scanning the selected list, stop at a pending error, stop once the machine has
+    finished (an earlier transition of the step completed it: `break`); skip a candidate whose source
+    is no longer active (tested only when several were selected); execute the others -/
 theorem firedOf_cons (h : Hooks) (fl : Flavor) (m : Machine) (ev : Ev) (multi : Bool) (c : Cand)
     (cs : List Cand) (s : St) :
     firedOf h fl m ev multi (c :: cs) s =
       if s.err.isSome then []
+      else if finished s.status then []
       else if multi && !(s.cfg.contains c.src) then firedOf h fl m ev multi cs s
       else c :: firedOf h fl m ev multi cs (execute h fl m ev (planTransition m s.cfg s.hist c) s) := rfl
 
-/-- a single selected transition is always executed (no stale-source test) -/
+/-- a single selected transition is always executed (no stale-source test) by a machine that has not
+    finished (`_process_event` leaves its loop at once when the status is `done` / `error` / `stopped`;
+    the engines only call it while running) -/
 theorem fired_single (h : Hooks) (fl : Flavor) (m : Machine) (u : UEnv) (ev : Ev) (s : St) (c : Cand)
-    (hsel : selectTransitions m s.cfg (u.genv s.ctx ev.type) ev = .ok [c]) (herr : s.err = none) :
+    (hsel : selectTransitions m s.cfg (u.genv s.ctx ev.type) ev = .ok [c]) (herr : s.err = none)
+    (hrun : finished s.status = false) :
     processEvent h fl m u ev s = execute h fl m ev (planTransition m s.cfg s.hist c) s := by
   rw [(fired_subset_selected h fl m u ev s [c] hsel).1]
-  simp [firedOf, herr]
+  simp [firedOf, herr, hrun]
 
 /-! ## 6. `can` -/
 
